@@ -22,6 +22,7 @@ type Input struct {
 	Pre     int     `json:"pre"`  // rows inserted (and half of them deleted) before the case
 	MapKeys string  `json:"mapkeys,omitempty"` // col | name
 	NoMMap  bool    `json:"nommap,omitempty"`  // skip the Model(&T{}).Take(&map) read (types with serializer fields: known finding)
+	Spec    []GField `json:"spec,omitempty"` // run-time generated struct type (reflect.StructOf); Type = "gen_<n>"
 	Recs    [][]Val `json:"recs"` // canonical values per record, in column (DBNames) order
 }
 
@@ -58,12 +59,18 @@ func plainOf(f *FDesc, v Val) interface{} {
 }
 
 func run(in Input) (o Obs) {
+	if isGen(in.Type) {
+		registerGen(in.Type, in.Spec)
+	}
 	d := descOf(in.Type)
 	db, _, sqlDB, err := gdb.Open(gdb.Opt{NoReturning: in.NoRet, Config: &gorm.Config{NowFunc: func() time.Time { return nowPinned }}})
 	if err != nil {
 		panic(err)
 	}
 	defer sqlDB.Close()
+	if isGen(in.Type) {
+		db = db.Table(d.Table).Session(&gorm.Session{})
+	}
 	model := reflect.New(d.t).Interface()
 	if err := db.AutoMigrate(model); err != nil {
 		panic(err)
